@@ -123,3 +123,38 @@ def run(ctx):
     callers = sorted(F.callers().get(EB, ()))
     ctx.instance("C19.4", "callers of evaluate_expression_bool: %s" % [c.split("::")[-2:] for c in callers])
     ctx.oblige(FILTER_NEXT in callers, "C19.4", "filter-uses-conversion", "FilterIter no longer decides through evaluate_expression_bool", fb.file)
+
+    # ---- 5: inline pattern properties are hard constraints -----------------------------------------------
+    # The match compiler keeps one expression per (alias, property key) in the predicate map that feeds the pattern's filter.  The map is
+    # pre-seeded with *hints* extracted from a following WHERE (`alias.key = literal`), which is re-applied in full afterwards; the
+    # inline `{key: value}` map of the pattern has no other enforcement.  So inline entries must be written unconditionally (overwriting a
+    # hint): an insert-if-absent lets a conflicting WHERE equality drop the inline constraint — for `WHERE p` only, not for `WHERE NOT p`
+    # or `p IS NULL`, which produce no hint — and the three filtered queries then run over different row sets.
+    ctx.rule("C19.5", "inline pattern properties overwrite WHERE-derived hints in the match compiler's predicate map (unconditional insert, never insert-if-absent)")
+    EP = "nervusdb_query::query_api::match_compile::extend_predicates_from_properties"
+    eb5 = ctx.body(EP)
+    INNER = "BTreeMap<alloc::string::String, nervusdb_query::ast::Expression"
+    inserts = []
+    conditional = []
+    for c in eb5.calls():
+        tys = [eb5.local_ty(a[1][0]) for a in c.args if a[0] in ("c", "m")]
+        short = c.name.split("::")[-1]
+        if short == "insert" and tys and INNER in tys[0]:
+            inserts.append(c)
+        # Entry<'_, String, Expression>::or_insert* / try_insert on the inner map: insert-if-absent
+        if short in ("or_insert", "or_insert_with", "or_insert_with_key", "try_insert") and tys and (
+                ("Entry<" in tys[0] and tys[0].rstrip(">").endswith("alloc::string::String, nervusdb_query::ast::Expression")) or (short == "try_insert" and INNER in tys[0])):
+            conditional.append(c)
+    in_loop = [c for c in inserts if c.bb in eb5.reachable(eb5.succs(c.bb))]
+    # the insert must not be control dependent on a lookup of the same map
+    guarded = []
+    for c in in_loop:
+        for g in eb5.calls():
+            if g.name.split("::")[-1] in ("contains_key", "get", "get_mut") and eb5.dominates(g.bb, c.bb) and g.bb in eb5.reachable(eb5.succs(c.bb)):
+                tys = [eb5.local_ty(a[1][0]) for a in g.args if a[0] in ("c", "m")]
+                if tys and INNER in tys[0]:
+                    guarded.append(g)
+    ctx.instance("C19.5", "extend_predicates_from_properties: unconditional inserts in the loop=%d, insert-if-absent calls=%d, lookups guarding the insert=%d" % (len(in_loop), len(conditional), len(guarded)))
+    ctx.oblige(bool(in_loop) and not conditional and not guarded, "C19.5", "inline-properties-not-authoritative",
+               "an inline pattern property is added only when the key is absent: a conflicting WHERE equality on the same key (pre-seeded as a hint) silently "
+               "drops the inline constraint for `WHERE p` but not for `WHERE NOT p` / `p IS NULL`", eb5.file)
